@@ -1080,7 +1080,8 @@ func (p *BinaryProtocol) ReadAnyWithDesc(desc *TypeDescriptor, byteAsUint8 bool,
 		if keyType == STRING {
 			m := make(map[string]interface{}, size)
 			for i := 0; i < size; i++ {
-				kv, e := p.ReadString(false)
+				// NOTICE: the key lives as long as the map does, it follows copyString like every other string
+				kv, e := p.ReadString(copyString)
 				if e != nil {
 					return nil, e
 				}
